@@ -36,7 +36,7 @@
 
 void reb_boundary_check(struct reb_simulation* const r){
 	struct reb_particle* const particles = r->particles;
-	int N = r->N;
+	int N = r->N - r->N_var; // variational particles are tangent vectors, not positions
 	const struct reb_vec3d boxsize = r->boxsize;
 	switch(r->boundary){
 		case REB_BOUNDARY_OPEN:
